@@ -23,7 +23,7 @@ for pid in ids:
         "replay_cmd_template": "bin/check --replay {path}",
         "engine": "vx+verus",
         "level_claimed": {"category": "proof", "text": text, "design_ref": c.get("design_ref", "DESIGN.md section 5 / " + pid)},
-        "level_note": "Trusted: Verus+z3; the vx extractor and its rewrite list R1-R14 (printed into every evidence file); prelude stubs of foreign types; "
+        "level_note": "Trusted: Verus+z3; the vx extractor and its rewrite list R1-R18 (printed into every evidence file); prelude stubs of foreign types; "
                       + "; ".join(c.get("assumptions", [])),
         "technique": c.get("technique", "contract-based deductive verification (Verus) of the real function bodies, extracted mechanically from /repo on every run"),
     })
